@@ -1417,6 +1417,73 @@ theorem csr_to_csc_wellformed (r : Csc) (n m : Nat) (hs : r.shape = [n, m]) :
     (csrToCsc r).wellFormed = true ∧ (csrToCsc r).shape = r.shape := by
   simp [csrToCsc, Csc.wellFormed, hs, cumul_length, Function.comp_def]
 
+/-! ## the `overwrite` argument (round 6) -/
+
+/-- **Writing onto a path that may hold a file** (`writeOver`, the definition the driver op `overwrite`
+executes, for every payload type): the call raises iff the writer itself refuses the object or the file
+is a FITS file, the path is occupied and `overwrite` is false; a call that raises leaves the path holding
+exactly what it held; a call that returns leaves exactly the file a write onto a fresh path produces —
+never the old file, never a mixture.  With `overwrite = true` (the default) or a free path the outcome is
+the writer's. -/
+theorem write_over_spec {P : Type} (prev : Option (Stored P)) (overwrite : Bool)
+    (w : Except Err (Stored P)) :
+    ((writeOver prev overwrite w).2.toBool = false ↔
+      (w.toBool = false ∨ ∃ st, w = .ok st ∧ st.fmt = .fits ∧ prev.isSome = true ∧ overwrite = false)) ∧
+    ((writeOver prev overwrite w).2.toBool = false → (writeOver prev overwrite w).1 = prev) ∧
+    (∀ st, (writeOver prev overwrite w).2.toBool = true → w = .ok st →
+      (writeOver prev overwrite w).1 = some st) ∧
+    ((overwrite = true ∨ prev = none) → (writeOver prev overwrite w).2.toBool = w.toBool) := by
+  cases w with
+  | error e => simp [writeOver, Except.toBool]
+  | ok st =>
+    by_cases hc : (st.fmt == .fits && prev.isSome && !overwrite) = true
+    · have hc' := hc
+      simp only [Bool.and_eq_true, beq_iff_eq, Bool.not_eq_true'] at hc'
+      obtain ⟨⟨h1, h2⟩, h3⟩ := hc'
+      refine ⟨?_, ?_, ?_, ?_⟩
+      · simp [writeOver, hc, Except.toBool, h1, h2, h3]
+      · simp [writeOver, hc]
+      · simp [writeOver, hc, Except.toBool]
+      · rintro (h | h)
+        · simp [h] at h3
+        · simp [h] at h2
+    · have hc' : (st.fmt == .fits && prev.isSome && !overwrite) = false := by simpa using hc
+      refine ⟨?_, ?_, ?_, ?_⟩
+      · simp only [writeOver, hc', Except.toBool]
+        constructor
+        · intro h; cases h
+        · rintro (h | ⟨st', hst, h1, h2, h3⟩)
+          · cases h
+          · injection hst with hst; subst hst
+            simp [h1, h2, h3] at hc'
+      · simp [writeOver, hc', Except.toBool]
+      · intro st' _ hst; injection hst with hst; subst hst; simp [writeOver, hc']
+      · intro _; simp [writeOver, hc', Except.toBool]
+
+/-- **Grid written over an existing file, then read**: whatever the path held and whatever `overwrite`
+says, if the call returns, reading the path gives the grid written (same conclusion as
+`grid_file_roundtrip`); if it raises, the path still holds the old file. -/
+theorem grid_write_over_roundtrip (lib : AsdfLib) (hl : AsdfFaithful lib) (name : List Char)
+    (fmt : Option String) (g : Grid) (h : g.Ok) (prev : Option (Stored Grid)) (overwrite : Bool) :
+    match writeOver prev overwrite (writeGridFile lib name fmt g) with
+    | (slot, .ok _) => ∃ c f, slot = some c ∧ formatOf name fmt = .ok f ∧
+        readGridFile name fmt c = .ok (if f = .pickle then g else g.pyWeights)
+    | (slot, .error _) => slot = prev := by
+  have hrt := (grid_file_roundtrip lib hl name fmt g h).2
+  cases hw : writeGridFile lib name fmt g with
+  | error e => simp [writeOver]
+  | ok st =>
+    obtain ⟨f, hf, hr⟩ := hrt st hw
+    by_cases hc : (st.fmt == .fits && prev.isSome && !overwrite) = true
+    · simp [writeOver, hc]
+    · have hc' : (st.fmt == .fits && prev.isSome && !overwrite) = false := by simpa using hc
+      simp only [writeOver, hc']
+      exact ⟨st, f, rfl, hf, hr⟩
+
+example : (match (writeOver (some (.pickle ⟨.cartesian, .regular [.float 1] [2] [.float 0], .null⟩)) false
+    (writeGridFile AsdfLib.observed "a.fits".toList none ⟨.cartesian, .regular [.float 1] [2] [.float 0], .null⟩)).2 with
+    | .error .fileExists => true | _ => false) = true := by decide +kernel
+
 /-- **`to_sparse()` has no threshold** (round 6, seeded class C16-11: dynamic range inside one mode).
 The dense → CSC conversion the FITS image path of a sparse basis goes through (`denseToCsc`, the
 executed definition) stores **every** element that is not exactly zero, however small it is relative to
